@@ -117,6 +117,40 @@ def run(ctx):
                           finding_key="F4" if "single decay chain" in str(e) else None)
             res.case()
             return
+        # the two forms are separate values: an in-place edit of the dictionary (or of a round-tripped copy) after the conversion
+        # does not reach the object it was converted to (or from) - model parameters and user metadata included
+        try:
+            import copy as _copy
+
+            d_src = _copy.deepcopy(d)
+            dc3 = DecayChain.from_dict(d_src)
+            before3 = canon_json(dc3.to_dict())
+
+            def scribble(x):
+                if isinstance(x, dict):
+                    for v in list(x.values()):
+                        scribble(v)
+                    if "model_params" in x or "bf" in x:
+                        x["scribbled"] = 1
+                elif isinstance(x, list):
+                    for v in x:
+                        scribble(v)
+                    x.append("SCRIBBLED")
+
+            scribble(d_src)
+            after3 = canon_json(dc3.to_dict())
+            d4 = DecayChain.from_dict(dc.to_dict()).to_dict()
+            scribble(d4)            # the dictionary form of a round-tripped copy; dc (the original) must not notice
+            after_orig = canon_json(dc.to_dict())
+        except Exception as e:
+            before3 = after3 = after_orig = None
+        res.count("in_place_edits_after_conversion")
+        if before3 is not None and (before3 != after3 or after_orig != canon_json(d)):
+            res.violation("an in-place edit of the dictionary form after the conversion changes the class form (the two share state)", case,
+                          impl={"converted_object_changed": before3 != after3, "original_changed_by_editing_the_copy": after_orig != canon_json(d)},
+                          clause="chain -> dict -> chain")
+            res.case()
+            return
         reach = reachable(dc)
         ok = dc2.mother == dc.mother and set(dc2.decays) == set(reach) and all(modes_equal(dc2.decays[k], dc.decays[k]) for k in reach) and d2 == d
         if not ok:
